@@ -36,7 +36,7 @@ class Stop(Exception):
 
 
 class M:
-    __slots__ = ("uid", "cid", "flags", "idate", "recent", "digest", "size")
+    __slots__ = ("uid", "cid", "flags", "idate", "recent", "digest", "size", "ext")
 
     def __init__(self, uid, cid, flags, idate=None):
         self.uid = uid
@@ -46,6 +46,7 @@ class M:
         self.recent = True
         self.digest = None
         self.size = None
+        self.ext = False  # filed by the external MH agent (its flags are C13's subject too)
 
     def __repr__(self):
         return f"({self.uid},{self.cid},{sorted(self.flags)})"
@@ -436,7 +437,7 @@ class World:
         counted (known findings), anything else is a C04 violation."""
         extra = reported - model
         missing = model - reported
-        self.viol(["C04"], "flags-differ", f"{where}: reported {sorted(reported)} model {sorted(model)} (extra {sorted(extra)}, missing {sorted(missing)})",
+        self.viol(["C04", "C13"] if getattr(m, "ext", False) else ["C04"], "flags-differ", f"{where}: reported {sorted(reported)} model {sorted(model)} (extra {sorted(extra)}, missing {sorted(missing)})",
                   extra=sorted(extra), missing=sorted(missing), flags_used=sorted(self.flags_used))
 
     # ---------------------------------------------------------- operations
@@ -772,7 +773,20 @@ class World:
             for i, (c, u) in enumerate(zip(ss.view, su)):
                 if c[0] is not None and c[0] != u:
                     self.viol(["C01"], "view-cell-differs-after-flush", f"{ss.name} after {how}: cell {i + 1} is UID {c[0]}, server {u}")
-        if len(ss.view) != len(b.msgs):
+        expect = len(b.msgs)
+        if getattr(self, "no_probe", False):
+            # another client's command is being kept executing on purpose: the
+            # server may defer noticing deliveries made in this window until it
+            # is over (they must show up afterwards)
+            pending = 0
+            for m in reversed(b.msgs):
+                if m.uid is None:
+                    pending += 1
+                else:
+                    break
+            if len(ss.view) in range(len(b.msgs) - pending, len(b.msgs) + 1):
+                expect = len(ss.view)
+        if len(ss.view) != expect:
             self.viol(["C01", "C05", "C13"], "view-length-differs-from-model", f"{ss.name} after {how}: view {len(ss.view)}, model {len(b.msgs)} {b.msgs}")
         # every flag change made by others has reached us (C04)
         for i, c in enumerate(ss.view):
@@ -916,6 +930,7 @@ class World:
             u = unseen if isinstance(unseen, bool) else unseen[i]
             flags.append(u)
             m = M(None, cid, [] if u else ["\\Seen"])
+            m.ext = True
             new.append(m)
         self.rig.deliver("inbox" if name == "INBOX" else name, msgs, unseen=flags)
         b.msgs.extend(new)
